@@ -1,3 +1,5 @@
 import TxV.Util.AuditCmd
 import TxV.Props.C09
+import TxV.Props.SourceTie
 #txv_audit TxV.Props.C09
+#txv_audit TxV.Props.SourceTie
